@@ -31,6 +31,7 @@ type Out struct {
 	ID       types.SiacoinOutputID
 	Value    types.Currency
 	Maturity uint64
+	Leaf     uint64 // leaf index in the accumulator of the chain that created it
 	Kind     string // miner, foundation, claim:owner, claim:only, v1valid, v1missed, v2renter:<res>, v2host:<res>, payment
 }
 
@@ -66,7 +67,9 @@ func resName(r types.V2FileContractResolutionType) string {
 	return "unknown"
 }
 
-// applyUpdate recomputes core's ApplyUpdate for node id of tree t (id must be on a valid chain).
+// applyUpdate recomputes core's ApplyUpdate for node id of tree t (id must be on a valid chain)
+// with the supplement the node's ledger applied the block with -- for a tree with a pinned
+// expiration order that is the pinned order, which decides the leaf indices of missed payouts.
 func applyUpdate(t *mat.Tree, id int) (consensus.State, consensus.ApplyUpdate) {
 	nd := t.Node(id)
 	if nd.Parent == 0 {
@@ -74,7 +77,7 @@ func applyUpdate(t *mat.Tree, id int) (consensus.State, consensus.ApplyUpdate) {
 		return consensus.ApplyBlock(t.W.N.GenesisState(), nd.Block, bs, time.Time{})
 	}
 	pl := t.Node(nd.Parent).L
-	return consensus.ApplyBlock(pl.CS, nd.Block, pl.BlockSupplement(nd.Block), pl.AncestorTS())
+	return consensus.ApplyBlock(pl.CS, nd.Block, nd.L.Supps[len(nd.L.Supps)-1], pl.AncestorTS())
 }
 
 // BlockView derives, with go.sia.tech/core only, what block `id` of the tree creates, spends and
@@ -157,9 +160,9 @@ func BlockView(t *mat.Tree, id int, addr types.Address) View {
 			if !ok {
 				panic(fmt.Sprintf("walletledx: created output %v of block %d is of no known kind", e.ID, id))
 			}
-			v.Creates = append(v.Creates, Out{ID: e.ID, Value: e.SiacoinOutput.Value, Maturity: e.MaturityHeight, Kind: k})
+			v.Creates = append(v.Creates, Out{ID: e.ID, Value: e.SiacoinOutput.Value, Maturity: e.MaturityHeight, Leaf: e.StateElement.LeafIndex, Kind: k})
 		case d.Spent:
-			v.Spends = append(v.Spends, Out{ID: e.ID, Value: e.SiacoinOutput.Value, Maturity: e.MaturityHeight, Kind: "spend"})
+			v.Spends = append(v.Spends, Out{ID: e.ID, Value: e.SiacoinOutput.Value, Maturity: e.MaturityHeight, Leaf: e.StateElement.LeafIndex, Kind: "spend"})
 		}
 	}
 
